@@ -38,11 +38,14 @@ def _descendants(pid):
 
 def _arm_watchdog(tier):
     """Wall-clock limit for the whole check (a hung worker must not hold a run slot for ever): on expiry all
-    descendant processes are killed and the check exits 2 (infrastructure, never a violation)."""
+    descendant processes are killed and the check exits 2 (infrastructure, never a violation).  A daemon timer THREAD is
+    used, not SIGALRM: in a multi-threaded process (JAX/XLA) the signal may be delivered to another thread and never wake
+    a main thread that is blocked on a lock."""
     import signal
+    import threading
     limit = int(os.environ.get("VERIF_MAX_WALL", "2400" if tier == "quick" else "10800"))
 
-    def _expired(_sig, _frm):
+    def _expired():
         print(f"infrastructure error: wall-clock limit of {limit} s reached (hung worker?); killing workers", flush=True)
         for k in _descendants(os.getpid()):
             try:
@@ -50,8 +53,9 @@ def _arm_watchdog(tier):
             except OSError:
                 pass
         os._exit(2)
-    signal.signal(signal.SIGALRM, _expired)
-    signal.alarm(limit)
+    t = threading.Timer(limit, _expired)
+    t.daemon = True
+    t.start()
 
 
 def main():
